@@ -265,6 +265,7 @@ def run_check(prop, tier, seed, replay=None):
         env["PYTHONDONTWRITEBYTECODE"] = "1"
         env["VERIF_WORKER_BUDGET"] = str(spec.get("budget", {}).get(tier, budget))
         env["VERIF_WORKER_TIMEOUT"] = str(wall_cap)
+        env["VERIF_TIER"] = tier
         env.pop("BEHAVE_VERIF_SIM", None)
         cmd = [sys.executable, os.path.join(HERE, "check"), "--worker", prop,
                "--seeds", seeds, "--hashseed", str(j % 4), "--out", out, "--tier", tier]
